@@ -255,4 +255,1062 @@ theorem typesSystem_bp {u : List Site} {e : Env} {ci : CallInfo} {a : Unit}
   · exact .inl h
   · right; simpa using h
 
+/-! ### contract/system -/
+
+theorem safe_validateForVote (u : List Site) (e : Env) (i : Nat) : Safe u (validateForVote e i) := by
+  unfold validateForVote
+  apply safe_bind (safe_rejectIf _ _); intro _ _
+  exact safe_rejectIf _ _
+
+theorem all_isStr_getElem {xs : List JVal} (h : xs.all isStr = true) {i : Nat} {v : JVal} (hv : xs[i]? = some v) :
+    isStr v = true := by
+  have hm : v ∈ xs := List.mem_of_getElem? hv
+  exact (List.all_eq_true.mp h) v hm
+
+/-- `system.ValidateSystemTx` panics only at unguarded sites, given what `types.ValidateSystemTx`
+established for the same payload. -/
+theorem safe_sysValidate (u : List Site) (e : Env)
+    (ht : ∀ ci, unmarshalCallInfo e.tx.payload = some ci → typesSystem u e ci = .ok ()) :
+    Safe u (sysValidate u e) := by
+  unfold sysValidate
+  split
+  · exact safe_reject _
+  · rename_i ci hci
+    have ht := ht ci hci
+    split
+    · repeat (apply safe_bind (safe_rejectIf _ _); intro _ _)
+      exact safe_pure _
+    · apply safe_bind (safe_validateForVote _ _ _); intro _ _
+      exact safe_pure _
+    · repeat (apply safe_bind (safe_rejectIf _ _); intro _ _)
+      exact safe_pure _
+    · rename_i hop
+      have ⟨hlen, _⟩ := typesSystem_dao ht hop
+      apply safe_bind (safe_rejectIf _ _); intro _ _
+      apply safe_bind
+      · apply safe_idx; right; omega
+      · intro a0 _
+        split
+        · exact safe_reject _
+        · split
+          · exact safe_reject _
+          · apply safe_bind
+            · apply safe_sliceFrom; right; omega
+            · intro candis _
+              apply safe_bind (safe_rejectIf _ _); intro _ _
+              apply safe_bind (safe_fixGuard _ _ _); intro _ _
+              apply safe_bind (safe_rejectIf _ _); intro _ _
+              apply safe_bind (safe_validateForVote _ _ _); intro _ _
+              exact safe_pure _
+
+theorem sliceFrom_ok {s : Site} {xs ys : List α} {i : Nat} (h : sliceFrom s xs i = .ok ys) :
+    i ≤ xs.length ∧ ys = xs.drop i := by
+  unfold sliceFrom at h
+  split at h
+  · cases h; exact ⟨by assumption, rfl⟩
+  · cases h
+
+theorem str?_some {v : JVal} {s : Str} (h : str? v = some s) : v = .str s := by
+  cases v <;> simp [str?] at h; subst h; rfl
+
+theorem pure_ok {a b : α} (h : (pure a : Outcome α) = .ok b) : a = b := by
+  cases h; rfl
+
+/-- What a successful `system.ValidateSystemTx` leaves in the context. -/
+theorem sysValidate_ok {u : List Site} {e : Env} {c : SysCtx} (h : sysValidate u e = .ok c) :
+    unmarshalCallInfo e.tx.payload = some c.ci ∧ c.op = getOpSysTx c.ci.name ∧
+    (c.proposal = false → c.op ≠ .voteDAO) ∧
+    (c.proposal = true → 1 ≤ c.ci.args.length ∧ (∃ s, c.ci.args[0]? = some (.str s)) ∧
+        (.vDaoVal ∈ u ∨ ∃ v, c.ci.args[1]? = some v ∧ isStr v = true)) := by
+  unfold sysValidate at h
+  split at h
+  · cases h
+  · rename_i ci hci
+    split at h
+    · rename_i hop
+      obtain ⟨_, _, h⟩ := bind_ok h
+      obtain ⟨_, _, h⟩ := bind_ok h
+      obtain ⟨_, _, h⟩ := bind_ok h
+      have := pure_ok h; subst this
+      simp [hci, hop]
+    · rename_i hop
+      obtain ⟨_, _, h⟩ := bind_ok h
+      have := pure_ok h; subst this
+      simp [hci, hop]
+    · rename_i hop
+      obtain ⟨_, _, h⟩ := bind_ok h
+      obtain ⟨_, _, h⟩ := bind_ok h
+      obtain ⟨_, _, h⟩ := bind_ok h
+      obtain ⟨_, _, h⟩ := bind_ok h
+      have := pure_ok h; subst this
+      simp [hci, hop]
+    · rename_i hop
+      obtain ⟨_, _, h⟩ := bind_ok h
+      obtain ⟨a0, ha0, h⟩ := bind_ok h
+      split at h
+      · cases h
+      · rename_i id hid
+        split at h
+        · cases h
+        · obtain ⟨candis, hc, h⟩ := bind_ok h
+          obtain ⟨_, _, h⟩ := bind_ok h
+          obtain ⟨_, hg, h⟩ := bind_ok h
+          obtain ⟨_, hall, h⟩ := bind_ok h
+          obtain ⟨_, _, h⟩ := bind_ok h
+          have := pure_ok h; subst this
+          obtain ⟨hlen, hcand⟩ := sliceFrom_ok hc
+          have ha0 := idx_ok ha0
+          have := str?_some hid; subst this
+          refine ⟨hci, hop.symm, by simp, fun _ => ⟨hlen, ⟨id, ha0⟩, ?_⟩⟩
+          rcases fixGuard_ok hg with hg | hg
+          · exact .inl hg
+          · right
+            have hg := of_decide_eq_false hg
+            have hl : 1 < ci.args.length := by
+              rw [hcand] at hg; simp at hg; omega
+            refine ⟨ci.args[1], List.getElem?_eq_getElem hl, ?_⟩
+            have hall := rejectIf_ok hall
+            simp only [Bool.not_eq_false', List.all_eq_true] at hall
+            have hm : ci.args[1] ∈ candis := by
+              rw [hcand]
+              have h0 : (ci.args.drop 1)[0]? = some ci.args[1] := by
+                simp [List.getElem?_drop, List.getElem?_eq_getElem hl]
+              exact List.mem_of_getElem? h0
+            have := hall _ hm
+            unfold isStr
+            cases hs : str? ci.args[1] with
+            | none => simp [hs] at this
+            | some _ => rfl
+
+/-- State invariant used by the vote commands: an old vote record only names candidates that have an
+entry in the issue's tally (true in every state reached through validated 39-byte candidates). -/
+def OldVotesOk (e : Env) : Prop := ∀ i, e.voteRec.getD i false = true → e.oldVoteOk.getD i true = true
+
+theorem safe_subOld (u : List Site) (e : Env) (i : Nat) (c : Bool) (hs : OldVotesOk e) : Safe u (subOld e i c) := by
+  unfold subOld
+  split
+  · rename_i h
+    simp only [Bool.and_eq_true, Bool.not_eq_true'] at h
+    have := hs i h.1.2
+    rw [this] at h
+    exact absurd h.2 (by simp)
+  · exact safe_ok _
+
+theorem safe_refreshAllVote (u : List Site) (e : Env) (n : Nat) (l : List Nat) (hs : OldVotesOk e) :
+    Safe u (refreshAllVote e n l) := by
+  induction l with
+  | nil => exact safe_ok _
+  | cons i r ih =>
+    unfold refreshAllVote
+    apply safe_bind (safe_subOld _ _ _ _ hs); intro _ _
+    exact ih
+
+theorem safe_asStrAll (u : List Site) (s : Site) (xs : List JVal) (h : s ∈ u ∨ xs.all isStr = true) :
+    Safe u (asStrAll s xs) := by
+  induction xs with
+  | nil => exact safe_ok _
+  | cons v r ih =>
+    unfold asStrAll
+    apply safe_bind
+    · apply safe_asStr
+      rcases h with h | h
+      · exact .inl h
+      · right; simp at h; exact h.1
+    · intro _ _
+      apply ih
+      rcases h with h | h
+      · exact .inl h
+      · right; simp at h; simpa using h.2
+
+theorem sum_const {l : List Nat} {f : Nat → Nat} {k : Nat} (h : ∀ i ∈ l, f i = k) : (l.map f).sum = k * l.length := by
+  induction l with
+  | nil => simp
+  | cons a r ih =>
+    simp only [List.map_cons, List.sum_cons, List.length_cons]
+    rw [h a (by simp), ih (fun i hi => h i (by simp [hi]))]
+    rw [Nat.mul_succ, Nat.add_comm]
+
+theorem candTotal_of_all {e : Env} {args : List JVal}
+    (h : (indices args).all (fun i => (e.arg i).b58 == some peerIDLength) = true) :
+    candTotal e args = peerIDLength * args.length := by
+  unfold candTotal
+  have : ∀ i ∈ indices args, ((e.arg i).b58.getD 0) = peerIDLength := by
+    intro i hi
+    have := (List.all_eq_true.mp h) i hi
+    have : (e.arg i).b58 = some peerIDLength := by simpa using this
+    simp [this]
+  rw [sum_const this]
+  simp [indices]
+
+theorem safe_addNew (u : List Site) (e : Env) (p : Bool) (args : List JVal)
+    (hcap : candTotal e args ≤ e.candCap)
+    (h : p = false → .rAddSlice ∈ u ∨ (indices args).all (fun i => (e.arg i).b58 == some peerIDLength) = true) :
+    Safe u (addNew e p args) := by
+  unfold addNew
+  split
+  · rename_i hc
+    simp only [Bool.and_eq_true, Bool.not_eq_true'] at hc
+    rcases h hc.1 with h | h
+    · exact safe_panic h
+    · exfalso
+      have ht := candTotal_of_all h
+      have hfit : chunksFit (candTotal e args) e.candCap = true := by
+        unfold chunksFit
+        rw [ht] at hcap ⊢
+        simp only [decide_eq_true_eq]
+        have : (peerIDLength * args.length + peerIDLength - 1) / peerIDLength = args.length := by
+          unfold peerIDLength
+          omega
+        rw [this, Nat.mul_comm]; exact hcap
+      rw [hfit] at hc
+      exact absurd hc.2 (by simp)
+  · exact safe_ok _
+
+theorem safe_voteArgs (u : List Site) (c : SysCtx)
+    (hP : c.proposal = true → 1 ≤ c.ci.args.length ∧ (∃ s, c.ci.args[0]? = some (.str s)) ∧
+        (.vDaoVal ∈ u ∨ ∃ v, c.ci.args[1]? = some v ∧ isStr v = true))
+    (hB : c.proposal = false → c.ci.args.all isStr = true) : Safe u (voteArgs c) := by
+  unfold voteArgs
+  split
+  · rename_i hp
+    obtain ⟨hlen, ⟨s, hs⟩, h1⟩ := hP hp
+    apply safe_bind
+    · apply safe_sliceFrom; right; omega
+    · intro _ _
+      apply safe_bind
+      · apply safe_argStr; right; exact ⟨_, hs, rfl⟩
+      · intro _ _
+        apply safe_bind
+        · apply safe_argStr; exact h1
+        · intro _ _; exact safe_pure _
+  · rename_i hp
+    apply safe_asStrAll; right; exact hB (by simpa using hp)
+
+theorem safe_sysRun (u : List Site) (e : Env) (c : SysCtx) (hs : OldVotesOk e)
+    (hcap : candTotal e c.ci.args ≤ e.candCap)
+    (hP : c.proposal = true → 1 ≤ c.ci.args.length ∧ (∃ s, c.ci.args[0]? = some (.str s)) ∧
+        (.vDaoVal ∈ u ∨ ∃ v, c.ci.args[1]? = some v ∧ isStr v = true))
+    (hB : c.proposal = false → (c.op = .voteBP ∨ c.op = .voteDAO) → c.ci.args.all isStr = true ∧
+        (.rAddSlice ∈ u ∨ (indices c.ci.args).all (fun i => (e.arg i).b58 == some peerIDLength) = true)) :
+    Safe u (sysRun e c) := by
+  unfold sysRun
+  split
+  · exact safe_ok _
+  · exact safe_refreshAllVote _ _ _ _ hs
+  all_goals
+    rename_i hop
+    apply safe_bind
+    · apply safe_voteArgs _ _ hP
+      intro hp; exact (hB hp (by simp [hop])).1
+    · intro _ _
+      apply safe_bind (safe_subOld _ _ _ _ hs); intro _ _
+      apply safe_addNew _ _ _ _ hcap
+      intro hp; exact (hB hp (by simp [hop])).2
+
+/-- Runtime fact: a slice's length never exceeds its capacity (the candidate buffer of `newVoteCmd`). -/
+def CapOk (e : Env) : Prop := ∀ ci, unmarshalCallInfo e.tx.payload = some ci → candTotal e ci.args ≤ e.candCap
+
+theorem safe_sysExecute (u : List Site) (e : Env)
+    (ht : ∀ ci, unmarshalCallInfo e.tx.payload = some ci → typesSystem u e ci = .ok ())
+    (hs : OldVotesOk e) (hcap : CapOk e) : Safe u (sysExecute u e) := by
+  unfold sysExecute
+  apply safe_bind (safe_sysValidate u e ht)
+  intro c hc
+  obtain ⟨hci, hop, hnd, hP⟩ := sysValidate_ok hc
+  apply safe_sysRun u e c hs (hcap _ hci) hP
+  intro hp hor
+  have hbp : getOpSysTx c.ci.name = .voteBP := by
+    rcases hor with h | h
+    · rw [← hop]; exact h
+    · exact absurd h (hnd hp)
+  exact typesSystem_bp (ht _ hci) hbp
+
+/-! ### contract/name -/
+
+theorem asStr_ok {s : Site} {v : JVal} {x : Str} (h : asStr s v = .ok x) : v = .str x := by
+  cases v <;> simp [asStr] at h; subst h; rfl
+
+theorem argStr_ok {s : Site} {xs : List JVal} {i : Nat} {x : Str} (h : argStr s xs i = .ok x) :
+    xs[i]? = some (.str x) := by
+  unfold argStr at h
+  obtain ⟨v, hv, h⟩ := bind_ok h
+  have := asStr_ok h; subst this
+  exact idx_ok hv
+
+theorem typesNameCommon_arg0 {ci : CallInfo} {a : Unit} (h : typesNameCommon ci = .ok a) :
+    ∃ s, ci.args[0]? = some (.str s) := by
+  unfold typesNameCommon at h
+  obtain ⟨_, _, h⟩ := bind_ok h
+  obtain ⟨a0, ha0, h⟩ := bind_ok h
+  split at h
+  · cases h
+  · rename_i s hs
+    have := str?_some hs; subst this
+    exact ⟨s, idx_ok ha0⟩
+
+/-- What a successful `validateNameTx` establishes about the arguments. -/
+theorem typesName_ok {u : List Site} {e : Env} {ci : CallInfo} {a : Unit} (h : typesName u e ci = .ok a) :
+    (∃ s, ci.args[0]? = some (.str s)) ∧
+    ((ci.name == str% "v1updateName") = true → ∃ s, ci.args[1]? = some (.str s)) := by
+  unfold typesName at h
+  split at h
+  · rename_i hn
+    obtain ⟨_, hc, _⟩ := bind_ok h
+    refine ⟨typesNameCommon_arg0 hc, fun hu => ?_⟩
+    have h1 : ci.name = str% "v1createName" := by simpa using hn
+    rw [h1] at hu
+    exact absurd hu (by decide)
+  · split at h
+    · obtain ⟨_, hc, h⟩ := bind_ok h
+      obtain ⟨_, _, h⟩ := bind_ok h
+      obtain ⟨_, _, h⟩ := bind_ok h
+      obtain ⟨to, hto, _⟩ := bind_ok h
+      exact ⟨typesNameCommon_arg0 hc, fun _ => ⟨to, argStr_ok hto⟩⟩
+    · rename_i hnu
+      split at h
+      · obtain ⟨_, _, h⟩ := bind_ok h
+        obtain ⟨a0, ha0, h⟩ := bind_ok h
+        split at h
+        · cases h
+        · rename_i s hs
+          have := str?_some hs; subst this
+          exact ⟨⟨s, idx_ok ha0⟩, fun hu => absurd hu hnu⟩
+      · cases h
+
+theorem safe_nameState (u : List Site) (e : Env) (ci : CallInfo) : Safe u (nameState e ci) := by
+  unfold nameState
+  split
+  · apply safe_bind (safe_rejectIf _ _); intro _ _; exact safe_rejectIf _ _
+  · split
+    · apply safe_bind (safe_rejectIf _ _); intro _ _; exact safe_rejectIf _ _
+    · split
+      · exact safe_rejectIf _ _
+      · exact safe_reject _
+
+theorem safe_nameValidate (u : List Site) (e : Env)
+    (h0 : ∀ ci, unmarshalCallInfo e.tx.payload = some ci → ∃ s, ci.args[0]? = some (.str s)) :
+    Safe u (nameValidate e) := by
+  unfold nameValidate
+  apply safe_bind (safe_rejectIf _ _); intro _ _
+  split
+  · exact safe_reject _
+  · rename_i ci hci
+    obtain ⟨s, hs⟩ := h0 ci hci
+    apply safe_bind
+    · apply safe_argStr; right; exact ⟨_, hs, rfl⟩
+    · intro _ _
+      apply safe_bind (safe_nameState _ _ _); intro _ _
+      exact safe_pure _
+
+theorem nameValidate_ok {e : Env} {ci : CallInfo} (h : nameValidate e = .ok ci) :
+    unmarshalCallInfo e.tx.payload = some ci := by
+  unfold nameValidate at h
+  obtain ⟨_, _, h⟩ := bind_ok h
+  split at h
+  · cases h
+  · rename_i ci' hci
+    obtain ⟨_, _, h⟩ := bind_ok h
+    obtain ⟨_, _, h⟩ := bind_ok h
+    have := pure_ok h; subst this
+    exact hci
+
+theorem safe_nameExecArgs (u : List Site) (ci : CallInfo)
+    (h0 : ∃ s, ci.args[0]? = some (.str s))
+    (h1 : (ci.name == str% "v1updateName") = true → ∃ s, ci.args[1]? = some (.str s)) :
+    Safe u (nameExecArgs ci) := by
+  obtain ⟨s0, hs0⟩ := h0
+  unfold nameExecArgs
+  split
+  · apply safe_bind
+    · apply safe_argStr; right; exact ⟨_, hs0, rfl⟩
+    · intro _ _; exact safe_pure _
+  · split
+    · rename_i hu
+      obtain ⟨s1, hs1⟩ := h1 hu
+      apply safe_bind
+      · apply safe_argStr; right; exact ⟨_, hs0, rfl⟩
+      · intro _ _
+        apply safe_bind
+        · apply safe_argStr; right; exact ⟨_, hs1, rfl⟩
+        · intro _ _; exact safe_pure _
+    · split
+      · apply safe_bind
+        · apply safe_argStr; right; exact ⟨_, hs0, rfl⟩
+        · intro _ _; exact safe_pure _
+      · exact safe_ok _
+
+theorem safe_nameExecute (u : List Site) (e : Env)
+    (ht : ∀ ci, unmarshalCallInfo e.tx.payload = some ci → typesName u e ci = .ok ()) :
+    Safe u (nameExecute e) := by
+  unfold nameExecute
+  apply safe_bind
+  · exact safe_nameValidate u e (fun ci hci => (typesName_ok (ht ci hci)).1)
+  · intro ci hci
+    have := nameValidate_ok hci
+    have hk := typesName_ok (ht ci this)
+    exact safe_nameExecArgs u ci hk.1 hk.2
+
+/-! ### contract/enterprise -/
+
+theorem safe_checkAdmin (u : List Site) (e : Env) (b : Bool) (hr : .gAdmins ∈ u ∨ e.adminsReadable = true) :
+    Safe u (checkAdmin e b) := by
+  unfold checkAdmin
+  split
+  · rename_i h
+    rcases hr with hr | hr
+    · exact safe_panic hr
+    · rw [hr] at h; exact absurd h (by simp)
+  · split <;> exact safe_rejectIf _ _
+
+theorem safe_rpcHasWrite (u : List Site) (vals : List Str) (h : ∀ v ∈ vals, 2 ≤ (splitColon v).length) :
+    Safe u (rpcHasWrite vals) := by
+  induction vals with
+  | nil => exact safe_reject _
+  | cons v r ih =>
+    unfold rpcHasWrite
+    apply safe_bind
+    · apply safe_idx; right; have := h v (by simp); omega
+    · intro _ _
+      split
+      · exact safe_ok _
+      · exact ih (fun w hw => h w (by simp [hw]))
+
+def rpcKey : Str := str% "RPCPERMISSIONS"
+
+theorem safe_confValidate (u : List Site) (e : Env) (key : Str) (c : Conf) (ctx : Option Conf)
+    (h : toUpper key = rpcKey → ∀ v ∈ c.values, 2 ≤ (splitColon v).length) : Safe u (confValidate e key c ctx) := by
+  unfold confValidate
+  split
+  · exact safe_ok _
+  · split
+    · rename_i hk
+      exact safe_rpcHasWrite u _ (h (by simpa [rpcKey] using hk))
+    · split
+      · exact safe_rejectIf _ _
+      · exact safe_ok _
+
+theorem safe_checkRpc (u : List Site) (e : Env) (i : Nat) (v : Str) : Safe u (checkRpc e i v) := by
+  unfold checkRpc
+  split
+  · exact safe_ok _
+  · rename_i h
+    have hl : (splitColon v).length = 2 := by simpa using h
+    apply safe_bind
+    · apply safe_idx; right; omega
+    · intro _ _; exact safe_pure _
+
+theorem checkRpc_true {e : Env} {i : Nat} {v : Str} (h : checkRpc e i v = .ok true) : (splitColon v).length = 2 := by
+  unfold checkRpc at h
+  split at h
+  · cases h
+  · rename_i hl; simpa using hl
+
+theorem safe_checkOp (u : List Site) (e : Env) (key : Str) (i : Nat) (v : Str) : Safe u (checkOp e key i v) := by
+  unfold checkOp
+  split
+  · exact safe_rejectIf _ _
+  · split
+    · exact safe_rejectIf _ _
+    · split
+      · apply safe_bind (safe_checkRpc _ _ _ _); intro _ _; exact safe_rejectIf _ _
+      · exact safe_ok _
+
+theorem checkOp_rpc {e : Env} {i : Nat} {v : Str} {a : Unit} (h : checkOp e rpcKey i v = .ok a) :
+    (splitColon v).length = 2 := by
+  unfold checkOp at h
+  have e1 : ¬ ((rpcKey == str% "P2PWHITE" || rpcKey == str% "P2PBLACK") = true) := by decide
+  have e2 : ¬ ((rpcKey == str% "ACCOUNTWHITE") = true) := by decide
+  have e3 : (rpcKey == str% "RPCPERMISSIONS") = true := by decide
+  rw [if_neg e1, if_neg e2, if_pos e3] at h
+  obtain ⟨ok, hok, h⟩ := bind_ok h
+  have := rejectIf_ok h
+  have : ok = true := by simpa using this
+  subst this
+  exact checkRpc_true hok
+
+theorem safe_checkOps (u : List Site) (e : Env) (key : Str) (i : Nat) (l : List Str) : Safe u (checkOps e key i l) := by
+  induction l generalizing i with
+  | nil => exact safe_ok _
+  | cons v r ih =>
+    unfold checkOps
+    apply safe_bind (safe_checkOp _ _ _ _ _); intro _ _
+    exact ih _
+
+theorem checkOps_rpc {e : Env} {i : Nat} {l : List Str} {a : Unit} (h : checkOps e rpcKey i l = .ok a) :
+    ∀ v ∈ l, (splitColon v).length = 2 := by
+  induction l generalizing i with
+  | nil => intro v hv; cases hv
+  | cons w r ih =>
+    unfold checkOps at h
+    obtain ⟨_, h1, h2⟩ := bind_ok h
+    intro v hv
+    rcases List.mem_cons.mp hv with hv | hv
+    · subst hv; exact checkOp_rpc h1
+    · exact ih h2 v hv
+
+theorem filterMap_str_of_all {xs : List JVal} (h : xs.all isStr = true) : xs = (xs.filterMap str?).map JVal.str := by
+  induction xs with
+  | nil => rfl
+  | cons v r ih =>
+    simp only [List.all_cons, Bool.and_eq_true] at h
+    obtain ⟨hv, hr⟩ := h
+    cases v <;> simp [isStr, str?] at hv
+    rename_i s
+    simp only [List.filterMap_cons, str?, List.map_cons]
+    rw [← ih hr]
+
+/-- What a successful `checkArgs` returns: the arguments, all strings, in order; for the
+RPCPERMISSIONS key every value has exactly two `:`-separated parts. -/
+theorem checkArgs_ok {u : List Site} {e : Env} {ci : CallInfo} {strs : List Str} (h : checkArgs u e ci = .ok strs) :
+    ci.args = strs.map JVal.str ∧
+    (∀ a0, strs[0]? = some a0 → toUpper a0 = rpcKey → ∀ v ∈ strs.drop 1, (splitColon v).length = 2) := by
+  unfold checkArgs at h
+  obtain ⟨_, _, h⟩ := bind_ok h
+  obtain ⟨a0, ha0, h⟩ := bind_ok h
+  obtain ⟨_, _, h⟩ := bind_ok h
+  obtain ⟨_, hall, h⟩ := bind_ok h
+  obtain ⟨_, _, h⟩ := bind_ok h
+  obtain ⟨_, _, h⟩ := bind_ok h
+  obtain ⟨_, hops, h⟩ := bind_ok h
+  have := pure_ok h; subst this
+  have hall := rejectIf_ok hall
+  have hall : ci.args.all isStr = true := by simpa using hall
+  have heq := filterMap_str_of_all hall
+  refine ⟨heq, ?_⟩
+  intro b0 hb0 hup
+  have h0 := argStr_ok ha0
+  rw [heq] at h0
+  simp only [List.getElem?_map] at h0
+  rw [hb0] at h0
+  simp only [Option.map_some, Option.some.injEq, JVal.str.injEq] at h0
+  subst h0
+  rw [hup] at hops
+  exact checkOps_rpc hops
+
+theorem safe_checkArgs (u : List Site) (e : Env) (ci : CallInfo) (hlen : 1 ≤ ci.args.length) :
+    Safe u (checkArgs u e ci) := by
+  unfold checkArgs
+  apply safe_bind (safe_fixGuard _ _ _); intro _ hg
+  apply safe_bind
+  · apply safe_argStr
+    rcases fixGuard_ok hg with h | h
+    · exact .inl h
+    · right
+      exact ⟨_, getD_of_lt (by omega), by simpa using h⟩
+  · intro _ _
+    apply safe_bind (safe_rejectIf _ _); intro _ _
+    apply safe_bind (safe_rejectIf _ _); intro _ _
+    apply safe_bind (safe_rejectIf _ _); intro _ _
+    apply safe_bind (safe_rejectIf _ _); intro _ _
+    apply safe_bind (safe_checkOps _ _ _ _ _); intro _ _
+    exact safe_pure _
+
+/-- State invariant: every stored RPCPERMISSIONS value has a `:` (they were all accepted by
+`checkRPCPermissions`, which demands exactly one). -/
+def RpcOk (e : Env) : Prop :=
+  ∀ ci a0 c, unmarshalCallInfo e.tx.payload = some ci → ci.args[0]? = some (.str a0) → toUpper a0 = rpcKey →
+    e.confKey = some c → ∀ v ∈ c.values, 2 ≤ (splitColon v).length
+
+/-- What the execution step needs from the validated context. -/
+def CtxOk (c : EntCtx) : Prop :=
+  ((c.ci.name == str% "changeCluster") = false → 1 ≤ c.args.length) ∧
+  ((c.ci.name == str% "enableConf") = true → 2 ≤ c.ci.args.length) ∧
+  ((c.ci.name == str% "changeCluster") = true → 1 ≤ c.anyLen)
+
+theorem safe_adminState (u : List Site) (e : Env) (ci : CallInfo) (a : Str) (ad : List Nat) :
+    Safe u (adminState e ci a ad) := by
+  unfold adminState
+  split
+  · exact safe_rejectIf _ _
+  · apply safe_bind (safe_rejectIf _ _); intro _ _
+    split
+    · exact safe_rejectIf _ _
+    · exact safe_ok _
+
+theorem safe_entAdmin (u : List Site) (e : Env) (ci : CallInfo) (hr : .gAdmins ∈ u ∨ e.adminsReadable = true) :
+    Safe u (entAdmin u e ci) := by
+  unfold entAdmin
+  apply safe_bind (safe_rejectIf _ _); intro _ h1
+  have hlen : ci.args.length = 1 := by simpa using rejectIf_ok h1
+  apply safe_bind (safe_fixGuard _ _ _); intro _ hg
+  apply safe_bind
+  · apply safe_argStr
+    rcases fixGuard_ok hg with h | h
+    · exact .inl h
+    · right; exact ⟨_, getD_of_lt (by omega), by simpa using h⟩
+  · intro _ _
+    apply safe_bind (safe_rejectIf _ _); intro _ _
+    apply safe_bind (safe_fixGuard _ _ _); intro _ _
+    apply safe_bind (safe_checkAdmin _ _ _ hr); intro _ _
+    apply safe_bind (safe_adminState _ _ _ _ _); intro _ _
+    exact safe_pure _
+
+theorem entAdmin_ok {u : List Site} {e : Env} {ci : CallInfo} {c : EntCtx} (h : entAdmin u e ci = .ok c) :
+    c.ci = ci ∧ c.args.length = 1 := by
+  unfold entAdmin at h
+  obtain ⟨_, _, h⟩ := bind_ok h
+  obtain ⟨_, _, h⟩ := bind_ok h
+  obtain ⟨_, _, h⟩ := bind_ok h
+  obtain ⟨_, _, h⟩ := bind_ok h
+  obtain ⟨_, _, h⟩ := bind_ok h
+  obtain ⟨_, _, h⟩ := bind_ok h
+  obtain ⟨_, _, h⟩ := bind_ok h
+  have := pure_ok h; subst this
+  exact ⟨rfl, rfl⟩
+
+theorem safe_validateStored (u : List Site) (e : Env) (key : Str) (nc : Conf)
+    (h : ∀ c, e.confKey = some c → toUpper key = rpcKey → ∀ v ∈ c.values, 2 ≤ (splitColon v).length) :
+    Safe u (validateStored e key nc) := by
+  unfold validateStored
+  split
+  · rename_i stored hs
+    exact safe_confValidate u e key stored _ (h stored hs)
+  · exact safe_ok _
+
+theorem map_str_getElem? {l : List Str} {i : Nat} {k : Str} (h : l[i]? = some k) :
+    (l.map JVal.str)[i]? = some (.str k) := by
+  simp [List.getElem?_map, h]
+
+theorem safe_entSetConf (u : List Site) (e : Env) (ci : CallInfo) (hr : .gAdmins ∈ u ∨ e.adminsReadable = true)
+    (hrpc : ∀ a0 c, ci.args[0]? = some (.str a0) → toUpper a0 = rpcKey → e.confKey = some c →
+      ∀ v ∈ c.values, 2 ≤ (splitColon v).length) : Safe u (entSetConf u e ci) := by
+  unfold entSetConf
+  apply safe_bind (safe_rejectIf _ _); intro _ h1
+  have hlen : ¬ ci.args.length ≤ 1 := rejectIf_dec h1
+  apply safe_bind (safe_checkArgs u e ci (by omega)); intro ctxArgs hca
+  obtain ⟨heq, _⟩ := checkArgs_ok hca
+  have hl : ctxArgs.length = ci.args.length := by rw [heq]; simp
+  apply safe_bind
+  · apply safe_idx; right; omega
+  · intro key hkey
+    apply safe_bind (safe_checkAdmin _ _ _ hr); intro _ _
+    apply safe_bind
+    · apply safe_sliceFrom; right; omega
+    · intro vals _
+      apply safe_bind
+      · apply safe_idx; right; omega
+      · intro _ _
+        apply safe_bind
+        · apply safe_validateStored
+          intro c hc hk
+          have : ci.args[0]? = some (.str key) := by rw [heq]; exact map_str_getElem? (idx_ok hkey)
+          exact hrpc key c this hk hc
+        · intro _ _; exact safe_pure _
+
+theorem entSetConf_ok {u : List Site} {e : Env} {ci : CallInfo} {c : EntCtx} (h : entSetConf u e ci = .ok c) :
+    c.ci = ci ∧ 1 ≤ c.args.length := by
+  unfold entSetConf at h
+  obtain ⟨_, _, h⟩ := bind_ok h
+  obtain ⟨ctxArgs, _, h⟩ := bind_ok h
+  obtain ⟨_, hk, h⟩ := bind_ok h
+  obtain ⟨_, _, h⟩ := bind_ok h
+  obtain ⟨_, _, h⟩ := bind_ok h
+  obtain ⟨_, _, h⟩ := bind_ok h
+  obtain ⟨_, _, h⟩ := bind_ok h
+  have := pure_ok h; subst this
+  refine ⟨rfl, ?_⟩
+  have := idx_ok hk
+  have := (List.getElem?_eq_some_iff.mp this).1
+  show 1 ≤ ctxArgs.length
+  omega
+
+theorem modConf_values {ci : CallInfo} {conf conf' : Conf} {v : Str} (h : modConf ci conf v = .ok conf') :
+    ∀ w ∈ conf'.values, w ∈ conf.values ∨ w = v := by
+  unfold modConf at h
+  split at h
+  · obtain ⟨_, _, h⟩ := bind_ok h
+    have := pure_ok h; subst this
+    intro w hw
+    simp only [List.mem_append, List.mem_singleton] at hw
+    exact hw
+  · obtain ⟨_, _, h⟩ := bind_ok h
+    have := pure_ok h; subst this
+    intro w hw
+    exact .inl (List.mem_of_mem_erase hw)
+
+theorem safe_modConf (u : List Site) (ci : CallInfo) (conf : Conf) (v : Str) : Safe u (modConf ci conf v) := by
+  unfold modConf
+  split
+  · apply safe_bind (safe_rejectIf _ _); intro _ _; exact safe_pure _
+  · apply safe_bind (safe_rejectIf _ _); intro _ _; exact safe_pure _
+
+theorem safe_entModConf (u : List Site) (e : Env) (ci : CallInfo) (hr : .gAdmins ∈ u ∨ e.adminsReadable = true)
+    (hrpc : ∀ a0 c, ci.args[0]? = some (.str a0) → toUpper a0 = rpcKey → e.confKey = some c →
+      ∀ v ∈ c.values, 2 ≤ (splitColon v).length) : Safe u (entModConf u e ci) := by
+  unfold entModConf
+  apply safe_bind (safe_rejectIf _ _); intro _ h1
+  have hlen : ci.args.length = 2 := by simpa using rejectIf_ok h1
+  apply safe_bind (safe_checkArgs u e ci (by omega)); intro ctxArgs hca
+  obtain ⟨heq, hvals⟩ := checkArgs_ok hca
+  have hl : ctxArgs.length = 2 := by rw [← hlen, heq]; simp
+  apply safe_bind (safe_checkAdmin _ _ _ hr); intro _ _
+  apply safe_bind
+  · apply safe_idx; right; omega
+  · intro key hkey
+    apply safe_bind
+    · apply safe_idx; right; omega
+    · intro v hv
+      apply safe_bind (safe_modConf _ _ _ _); intro conf' hm
+      apply safe_bind
+      · apply safe_confValidate
+        intro hk w hw
+        rcases modConf_values hm w hw with hw | hw
+        · -- a stored value
+          unfold storedOr at hw
+          cases hc : e.confKey with
+          | none => simp [hc] at hw
+          | some c =>
+            simp only [hc, Option.getD_some] at hw
+            have : ci.args[0]? = some (.str key) := by rw [heq]; exact map_str_getElem? (idx_ok hkey)
+            exact hrpc key c this hk hc w hw
+        · -- the value being appended: accepted by checkRPCPermissions
+          subst hw
+          have hmem : w ∈ ctxArgs.drop 1 := by
+            have h1 := idx_ok hv
+            have : (ctxArgs.drop 1)[0]? = some w := by simpa using h1
+            exact List.mem_of_getElem? this
+          have := hvals key (idx_ok hkey) hk w hmem
+          omega
+      · intro _ _; exact safe_pure _
+
+theorem entModConf_ok {u : List Site} {e : Env} {ci : CallInfo} {c : EntCtx} (h : entModConf u e ci = .ok c) :
+    c.ci = ci ∧ 1 ≤ c.args.length := by
+  unfold entModConf at h
+  obtain ⟨_, _, h⟩ := bind_ok h
+  obtain ⟨ctxArgs, _, h⟩ := bind_ok h
+  obtain ⟨_, _, h⟩ := bind_ok h
+  obtain ⟨_, hk, h⟩ := bind_ok h
+  obtain ⟨_, _, h⟩ := bind_ok h
+  obtain ⟨_, _, h⟩ := bind_ok h
+  obtain ⟨_, _, h⟩ := bind_ok h
+  have := pure_ok h; subst this
+  refine ⟨rfl, ?_⟩
+  have := idx_ok hk
+  have := (List.getElem?_eq_some_iff.mp this).1
+  show 1 ≤ ctxArgs.length
+  omega
+
+theorem safe_entEnableVal (u : List Site) (e : Env) (ci : CallInfo) (arg0 : Str) (a1 : JVal)
+    (hr : .gAdmins ∈ u ∨ e.adminsReadable = true)
+    (hrpc : ∀ c, toUpper arg0 = rpcKey → e.confKey = some c → ∀ v ∈ c.values, 2 ≤ (splitColon v).length) :
+    Safe u (entEnableVal e ci arg0 a1) := by
+  unfold entEnableVal
+  split
+  · apply safe_bind (safe_checkAdmin _ _ _ hr); intro _ _
+    apply safe_bind
+    · apply safe_confValidate
+      intro hk w hw
+      unfold enabledConf at hw
+      cases hc : e.confKey with
+      | none => simp [hc] at hw
+      | some c => simp only [hc] at hw; exact hrpc c hk hc w hw
+    · intro _ _; exact safe_pure _
+  · exact safe_reject _
+
+theorem safe_entEnable (u : List Site) (e : Env) (ci : CallInfo) (hr : .gAdmins ∈ u ∨ e.adminsReadable = true)
+    (hrpc : ∀ a0 c, ci.args[0]? = some (.str a0) → toUpper a0 = rpcKey → e.confKey = some c →
+      ∀ v ∈ c.values, 2 ≤ (splitColon v).length) : Safe u (entEnable e ci) := by
+  unfold entEnable
+  apply safe_bind (safe_rejectIf _ _); intro _ h1
+  have hlen : ci.args.length = 2 := by simpa using rejectIf_ok h1
+  apply safe_bind
+  · apply safe_idx; right; omega
+  · intro a0 ha0
+    split
+    · exact safe_reject _
+    · rename_i s hs
+      have := str?_some hs; subst this
+      apply safe_bind
+      · apply safe_argStr; right; exact ⟨_, idx_ok ha0, rfl⟩
+      · intro arg0 harg0
+        apply safe_bind (safe_rejectIf _ _); intro _ _
+        apply safe_bind
+        · apply safe_idx; right; omega
+        · intro a1 _
+          apply safe_entEnableVal _ _ _ _ _ hr
+          intro c hk hc
+          exact hrpc arg0 c (argStr_ok harg0) hk hc
+
+theorem entEnableVal_ok {e : Env} {ci : CallInfo} {arg0 : Str} {a1 : JVal} {c : EntCtx}
+    (h : entEnableVal e ci arg0 a1 = .ok c) : c.ci = ci ∧ c.args.length = 1 := by
+  unfold entEnableVal at h
+  split at h
+  · obtain ⟨_, _, h⟩ := bind_ok h
+    obtain ⟨_, _, h⟩ := bind_ok h
+    have := pure_ok h; subst this
+    exact ⟨rfl, rfl⟩
+  · cases h
+
+theorem entEnable_ok {e : Env} {ci : CallInfo} {c : EntCtx} (h : entEnable e ci = .ok c) :
+    c.ci = ci ∧ c.args.length = 1 ∧ ci.args.length = 2 := by
+  unfold entEnable at h
+  obtain ⟨_, h1, h⟩ := bind_ok h
+  have hlen : ci.args.length = 2 := by simpa using rejectIf_ok h1
+  obtain ⟨_, _, h⟩ := bind_ok h
+  split at h
+  · cases h
+  · obtain ⟨_, _, h⟩ := bind_ok h
+    obtain ⟨_, _, h⟩ := bind_ok h
+    obtain ⟨_, _, h⟩ := bind_ok h
+    have := entEnableVal_ok h
+    exact ⟨this.1, this.2, hlen⟩
+
+theorem safe_ccParse (u : List Site) (e : Env) (kvs : List (Str × JVal)) : Safe u (ccParse e kvs) := by
+  unfold ccParse
+  split
+  · exact safe_reject _
+  · split
+    · split
+      · apply safe_bind (safe_rejectIf _ _); intro _ _; exact safe_rejectIf _ _
+      · exact safe_reject _
+    · split
+      · split
+        · exact safe_rejectIf _ _
+        · exact safe_reject _
+      · exact safe_reject _
+
+theorem safe_validateChangeCluster (u : List Site) (e : Env) (ci : CallInfo) : Safe u (validateChangeCluster e ci) := by
+  unfold validateChangeCluster
+  apply safe_bind (safe_rejectIf _ _); intro _ h1
+  have hlen : ci.args.length = 1 := by simpa using rejectIf_ok h1
+  apply safe_bind
+  · apply safe_idx; right; omega
+  · intro a0 _
+    split
+    · exact safe_ccParse _ _ _
+    · exact safe_reject _
+
+theorem safe_entCluster (u : List Site) (e : Env) (ci : CallInfo) (hr : .gAdmins ∈ u ∨ e.adminsReadable = true) :
+    Safe u (entCluster e ci) := by
+  unfold entCluster
+  apply safe_bind (safe_rejectIf _ _); intro _ _
+  apply safe_bind (safe_validateChangeCluster _ _ _); intro _ _
+  apply safe_bind (safe_checkAdmin _ _ _ hr); intro _ _
+  exact safe_pure _
+
+theorem entCluster_ok {e : Env} {ci : CallInfo} {c : EntCtx} (h : entCluster e ci = .ok c) :
+    c.ci = ci ∧ c.anyLen = 1 := by
+  unfold entCluster at h
+  obtain ⟨_, _, h⟩ := bind_ok h
+  obtain ⟨_, _, h⟩ := bind_ok h
+  obtain ⟨_, _, h⟩ := bind_ok h
+  have := pure_ok h; subst this
+  exact ⟨rfl, rfl⟩
+
+/-- `enterprise.ValidateEnterpriseTx` panics only at unguarded sites (given the two state invariants). -/
+theorem safe_entValidate (u : List Site) (e : Env) (hr : .gAdmins ∈ u ∨ e.adminsReadable = true) (hrpc : RpcOk e) :
+    Safe u (entValidate u e) := by
+  unfold entValidate
+  split
+  · exact safe_reject _
+  · rename_i ci hci
+    have hrpc' := fun a0 c h0 hk hc => hrpc ci a0 c hci h0 hk hc
+    split
+    · exact safe_entAdmin u e ci hr
+    · split
+      · exact safe_entSetConf u e ci hr hrpc'
+      · split
+        · exact safe_entModConf u e ci hr hrpc'
+        · split
+          · exact safe_entEnable u e ci hr hrpc'
+          · split
+            · exact safe_entCluster u e ci hr
+            · exact safe_reject _
+
+theorem entValidate_ok {u : List Site} {e : Env} {c : EntCtx} (h : entValidate u e = .ok c) : CtxOk c := by
+  unfold entValidate at h
+  split at h
+  · cases h
+  · rename_i ci hci
+    split at h
+    · rename_i hn
+      obtain ⟨h1, h2⟩ := entAdmin_ok h
+      refine ⟨fun _ => by omega, fun he => ?_, fun hc => ?_⟩
+      · rw [h1] at he
+        have : ci.name = str% "enableConf" := by simpa using he
+        rw [this] at hn; exact absurd hn (by decide)
+      · rw [h1] at hc
+        have : ci.name = str% "changeCluster" := by simpa using hc
+        rw [this] at hn; exact absurd hn (by decide)
+    · split at h
+      · rename_i hn
+        obtain ⟨h1, h2⟩ := entSetConf_ok h
+        refine ⟨fun _ => h2, fun he => ?_, fun hc => ?_⟩
+        · rw [h1] at he
+          have : ci.name = str% "enableConf" := by simpa using he
+          rw [this] at hn; exact absurd hn (by decide)
+        · rw [h1] at hc
+          have : ci.name = str% "changeCluster" := by simpa using hc
+          rw [this] at hn; exact absurd hn (by decide)
+      · split at h
+        · rename_i hn
+          obtain ⟨h1, h2⟩ := entModConf_ok h
+          refine ⟨fun _ => h2, fun he => ?_, fun hc => ?_⟩
+          · rw [h1] at he
+            have : ci.name = str% "enableConf" := by simpa using he
+            rw [this] at hn; exact absurd hn (by decide)
+          · rw [h1] at hc
+            have : ci.name = str% "changeCluster" := by simpa using hc
+            rw [this] at hn; exact absurd hn (by decide)
+        · split at h
+          · rename_i hn
+            obtain ⟨h1, h2, h3⟩ := entEnable_ok h
+            refine ⟨fun _ => by omega, fun _ => by rw [h1]; omega, fun hc => ?_⟩
+            rw [h1] at hc
+            have : ci.name = str% "changeCluster" := by simpa using hc
+            rw [this] at hn; exact absurd hn (by decide)
+          · split at h
+            · rename_i hne hn
+              obtain ⟨h1, h2⟩ := entCluster_ok h
+              refine ⟨fun hc => ?_, fun he => ?_, fun _ => by omega⟩
+              · rw [h1] at hc; rw [hc] at hn; exact absurd hn (by simp)
+              · rw [h1] at he; exact absurd he hne
+            · cases h
+
+theorem safe_entExecArgs (u : List Site) (c : EntCtx) (h : CtxOk c) : Safe u (entExecArgs c) := by
+  obtain ⟨h1, h2, h3⟩ := h
+  unfold entExecArgs
+  simp only
+  split
+  · rename_i hn
+    have hcc : (c.ci.name == str% "changeCluster") = false := by
+      cases hc : (c.ci.name == str% "changeCluster")
+      · rfl
+      · have : c.ci.name = str% "changeCluster" := by simpa using hc
+        rw [this] at hn; exact absurd hn (by decide)
+    apply safe_bind
+    · apply safe_idx; right; have := h1 hcc; omega
+    · intro _ _; exact safe_pure _
+  · split
+    · rename_i he
+      have hcc : (c.ci.name == str% "changeCluster") = false := by
+        cases hc : (c.ci.name == str% "changeCluster")
+        · rfl
+        · have : c.ci.name = str% "changeCluster" := by simpa using hc
+          rw [this] at he; exact absurd he (by decide)
+      apply safe_bind
+      · apply safe_idx; right; have := h1 hcc; omega
+      · intro _ _
+        apply safe_bind
+        · apply safe_idx; right; have := h2 he; omega
+        · intro _ _; exact safe_pure _
+    · split
+      · rename_i hc
+        apply safe_bind
+        · apply safe_idx; right; have := h3 hc; simp; omega
+        · intro _ _; exact safe_pure _
+      · exact safe_ok _
+
+theorem safe_entExecute (u : List Site) (e : Env) (hr : .gAdmins ∈ u ∨ e.adminsReadable = true) (hrpc : RpcOk e) :
+    Safe u (entExecute u e) := by
+  unfold entExecute
+  apply safe_bind (safe_entValidate u e hr hrpc)
+  intro c hc
+  exact safe_entExecArgs u c (entValidate_ok hc)
+
+/-! ### The two entry points -/
+
+theorem safe_void {u : List Site} {x : Outcome α} (h : Safe u x) : Safe u (void x) := by
+  unfold void
+  exact safe_bind h (fun _ _ => safe_ok _)
+
+theorem typesGov_sys {u : List Site} {e : Env} {a : Unit} (h : typesGov u e = .ok a)
+    (hr : (e.tx.recipient == aergoSystem) = true) :
+    ∀ ci, unmarshalCallInfo e.tx.payload = some ci → typesSystem u e ci = .ok () := by
+  unfold typesGov at h
+  rw [if_pos hr] at h
+  split at h
+  · cases h
+  · split at h
+    · cases h
+    · rename_i ci hci
+      intro ci' hci'
+      rw [hci] at hci'; cases hci'
+      exact h
+
+theorem typesGov_name {u : List Site} {e : Env} {a : Unit} (h : typesGov u e = .ok a)
+    (hs : ¬ (e.tx.recipient == aergoSystem) = true) (hr : (e.tx.recipient == aergoName) = true) :
+    ∀ ci, unmarshalCallInfo e.tx.payload = some ci → typesName u e ci = .ok () := by
+  unfold typesGov at h
+  rw [if_neg hs, if_pos hr] at h
+  split at h
+  · cases h
+  · rename_i ci hci
+    intro ci' hci'
+    rw [hci] at hci'; cases hci'
+    exact h
+
+/-- A governance transaction that passes `Validate` passed its recipient's validator. -/
+theorem typesValidate_gov {u : List Site} {e : Env} {a : Unit} (h : typesValidate u e = .ok a)
+    (ht : (e.tx.type == 1) = true) : typesGov u e = .ok () := by
+  have ht : e.tx.type = 1 := by simpa using ht
+  unfold typesValidate at h
+  simp only at h
+  obtain ⟨_, _, h⟩ := bind_ok h
+  obtain ⟨_, _, h⟩ := bind_ok h
+  obtain ⟨_, _, h⟩ := bind_ok h
+  obtain ⟨_, _, h⟩ := bind_ok h
+  obtain ⟨_, _, h⟩ := bind_ok h
+  obtain ⟨_, _, h⟩ := bind_ok h
+  obtain ⟨_, _, h⟩ := bind_ok h
+  obtain ⟨_, _, h⟩ := bind_ok h
+  obtain ⟨_, _, h⟩ := bind_ok h
+  rw [ht] at h
+  rw [if_neg (by decide), if_neg (by decide), if_pos (by decide)] at h
+  obtain ⟨_, _, h⟩ := bind_ok h
+  exact h
+
+theorem safe_poolGov (u : List Site) (e : Env) (htg : typesGov u e = .ok ())
+    (hr : .gAdmins ∈ u ∨ e.adminsReadable = true) (hrpc : RpcOk e) : Safe u (poolGov u e) := by
+  unfold poolGov
+  split
+  · rename_i hs
+    exact safe_void (safe_sysValidate u e (typesGov_sys htg hs))
+  · rename_i hs
+    split
+    · rename_i hn
+      exact safe_void (safe_nameValidate u e (fun ci hci => (typesName_ok (typesGov_name htg hs hn ci hci)).1))
+    · split
+      · exact safe_void (safe_entValidate u e hr hrpc)
+      · exact safe_ok _
+
+/-- Pool admission panics only at sites of `u`. -/
+theorem safe_admit (u : List Site) (e : Env) (hr : .gAdmins ∈ u ∨ e.adminsReadable = true) (hrpc : RpcOk e) :
+    Safe u (admit u e) := by
+  unfold admit
+  apply safe_bind (safe_typesValidate u e); intro _ htv
+  apply safe_bind (safe_rejectIf _ _); intro _ _
+  split
+  · rename_i ht
+    apply safe_bind (safe_senderState _ _ _); intro _ _
+    exact safe_poolGov u e (typesValidate_gov htv ht) hr hrpc
+  · exact safe_ok _
+
+theorem safe_execGov (u : List Site) (e : Env) (htg : typesGov u e = .ok ())
+    (hr : .gAdmins ∈ u ∨ e.adminsReadable = true) (hrpc : RpcOk e) (hv : OldVotesOk e) (hc : CapOk e) :
+    Safe u (execGov u e) := by
+  unfold execGov
+  apply safe_bind (safe_rejectIf _ _); intro _ _
+  split
+  · rename_i hs
+    exact safe_sysExecute u e (typesGov_sys htg hs) hv hc
+  · rename_i hs
+    split
+    · rename_i hn
+      exact safe_nameExecute u e (typesGov_name htg hs hn)
+    · split
+      · exact safe_entExecute u e hr hrpc
+      · exact safe_reject _
+
+/-- Block execution of a transaction panics only at sites of `u`. -/
+theorem safe_execute (u : List Site) (e : Env) (hr : .gAdmins ∈ u ∨ e.adminsReadable = true) (hrpc : RpcOk e)
+    (hv : OldVotesOk e) (hc : CapOk e) : Safe u (execute u e) := by
+  unfold execute
+  apply safe_bind (safe_typesValidate u e); intro _ htv
+  split
+  · rename_i ht
+    apply safe_bind (safe_senderState _ _ _); intro _ _
+    exact safe_execGov u e (typesValidate_gov htv ht) hr hrpc hv hc
+  · exact safe_ok _
+
 end Aergo.Admit
